@@ -11,10 +11,10 @@ for p in props:
     if c and c.get('registered'):
         checks.append({
             "property_id": pid,
-            "quick_cmd": f"./check {pid} --tier quick",
-            "thorough_cmd": f"./check {pid} --tier thorough",
+            "quick_cmd": f"/verif/check {pid} --tier quick",
+            "thorough_cmd": f"/verif/check {pid} --tier thorough",
             "evidence_file": f"/verif/evidence/{pid}.json",
-            "replay_cmd_template": f"./check {pid} --replay {{path}}",
+            "replay_cmd_template": f"/verif/check {pid} --replay {{path}}",
             "engine": c.get("engine", "pmc"),
             "level_claimed": {"category": "model_checking", "text": c["level_text"], "design_ref": c.get("design_ref", "DESIGN.md §7 " + pid)},
             "level_note": c["level_note"],
@@ -24,7 +24,7 @@ for p in props:
         na.append({"property_id": pid, "reason": PENDING.get(pid, "check not built yet; the technique applies (see DESIGN.md)")})
 m = {
     "version": 1,
-    "setup_cmd": "./setup.sh",
+    "setup_cmd": "/verif/setup.sh",
     "hooks": {"guard": "PIKA_VERIF_MC",
               "enable": "no source hooks are needed: scheduling points come from clang-14 atomics-only -fsanitize=thread instrumentation of /repo (build/pika-mc) plus libpthread interposition in libpmcrt.so; private members are reached with -fno-access-control in harness TUs only",
               "baseline_off_cmd": "ctest --test-dir /repo/_build -j8 --timeout 900",
